@@ -123,6 +123,9 @@ def main():
     case("bytes_hex", lambda a, b, c: mk(a, b, c).hex(), [B, B, B], bs + [(0x0a, 0xa0, 0x9f), (0x99, 0x10, 0xf0)])
     case("bytes_hex_upper", lambda a, b, c: mk(a, b, c).hex().upper(), [B, B, B], bs + [(0x0a, 0xa0, 0x9f)])
     case("bytes_hex_fromhex", lambda a, b, c: instr.call(bytes.fromhex, mk(a, b, c).hex()), [B, B, B], bs + [(0x0a, 0xa0, 0x9f)])
+    case("set_of_ints", lambda a, b, c: (len(instr.setof([a, b, c])), sorted(instr.setof([a, b, c])), instr.contains(c, instr.setof([a, b]))), [B, B, B],
+         bs + [(1, 1, 1), (1, 2, 1), (2, 1, 1), (3, 3, 4)])
+    case("set_of_bytes", lambda a, b, c: len(instr.setof([mk(a, b), mk(b, c), mk(a, b)])), [B, B, B], bs + [(1, 1, 1), (1, 2, 1)])
     # BytesIO
     def bio(a, b, n):
         s = instr.call(io.BytesIO, mk(a, b, 3, 4))
